@@ -398,3 +398,32 @@ Proof.
   intros h H. unfold exempt in H. cbn in H.
   repeat (apply orb_true_iff in H as [H|H]; [apply String.eqb_eq in H; subst; eexists; vm_compute; tauto|]). discriminate.
 Qed.
+
+(* ---------- nothing happens before the validation ----------
+   pre_validation_calls (regenerated): the calls a handler makes on the server before the statement that validates
+   the caller, the forwarding block aside.  Unary handlers make none (UpdateServiceGCSafePoint takes its lock);
+   the streams receive first; RegionHeartbeat alone answers NOT_BOOTSTRAPPED (read-only) before it validates. *)
+Definition harmless_before_validation : list string := ["Recv"; "Context"; "IsClosed"; "Lock"; "Unlock"].
+Definition heartbeat_not_bootstrapped_answer : list string := ["GetRaftCluster"; "notBootstrappedHeader"; "Send"].
+Definition mem_str (x : string) (l : list string) : bool := existsb (String.eqb x) l.
+Definition pre_ok (h : string * list string) : bool :=
+  exempt (fst h)
+  || forallb (fun c => mem_str c harmless_before_validation
+                       || (String.eqb (fst h) "RegionHeartbeat" && mem_str c heartbeat_not_bootstrapped_answer)) (snd h).
+
+Lemma pre_validation_table_ok : forallb pre_ok pre_validation_calls = true.
+Proof. vm_compute. reflexivity. Qed.
+
+Lemma nothing_before_validation_pf :
+  forall h cs, In (h, cs) pre_validation_calls -> exempt h = false -> h <> "RegionHeartbeat" ->
+    forall c, In c cs -> In c harmless_before_validation.
+Proof.
+  intros h cs Hin Hex Hne c Hc. pose proof pre_validation_table_ok as H. rewrite forallb_forall in H. specialize (H _ Hin).
+  unfold pre_ok in H. cbn [fst snd] in H. rewrite Hex in H. cbn [orb] in H. rewrite forallb_forall in H. specialize (H _ Hc).
+  apply String.eqb_neq in Hne. rewrite Hne in H. cbn [andb] in H. rewrite orb_false_r in H.
+  unfold mem_str in H. apply existsb_exists in H as (x & Hx & Heq). apply String.eqb_eq in Heq. subst. exact Hx.
+Qed.
+
+(* the table covers exactly the handlers of the validation table *)
+Lemma pre_validation_covers_handlers : map fst pre_validation_calls = map fst handlers.
+Proof. vm_compute. reflexivity. Qed.
